@@ -368,8 +368,18 @@ class WOwnership(Monitor):
                 else:
                     hist.count('child_declined_own')
         # declined parent => its w/ branches and open children are gone
-        if jn == 'PullRequestJob' and res.status == 'PullRequestDeclined' \
-                and job_src:
+        declined_parent = False
+        if jn == 'PullRequestJob' and job_src:
+            pid0 = res.job.pull_request.id
+            st0_ = {p[0]: p[4] for p in res.host0['prs']}
+            if pid0 in w.prs and st0_.get(pid0) == 'DECLINED':
+                # the evaluation reached the decline handling: either it
+                # cleaned up (PullRequestDeclined) or it found nothing to
+                # clean (NothingToDo, when no `wait` hold stopped it earlier)
+                declined_parent = res.status == 'PullRequestDeclined' or (
+                    res.status == 'NothingToDo' and
+                    hold_state(hist, pid0) is None)
+        if declined_parent:
             left = [n for n in res.heads1 if n.startswith('w/') and
                     n.split('/', 2)[2] == job_src]
             open_children = [p for p in res.host1['prs'] if p[1] == ROBOT and
